@@ -9,17 +9,17 @@ ALL = ["C%02d" % i for i in range(1, 21)]
 CHECKS = {
     "C04": {
         "technique": "Lean 4 proof (generic release lemmas for try/finally + closeSrc/closeAll, instantiated per tool, for every world) + model/implementation correspondence + direct oracle on instrumented sources",
-        "text": "Lean theorems C04_<tool> for filter, filterfalse, enumerate, takewhile, dropwhile, starmap, accumulate, batched, islice, pairwise, all, any, zip, zip(strict), map, zip_longest, compress: in EVERY world (every input, every fault position in sources/callables, consumer exhausting / closing after any number of items / throwing after any number of items) every source handed to the tool ends Released (async generator: closed, exhausted or finished by its own failure; class-based iterator with aclose: aclose() called or StopAsyncIteration delivered), provided the model did not run out of fuel. chain and cycle (release of sources not in the outermost scope), merge, tee, groupby and the remaining aggregations are not proved yet; chain/cycle are covered by correspondence + oracle. On every run the real tools are driven over all tools x parameter grid x item sequences x {exhaust, every close cut, every throw cut} x every single fault position with async-generator and class-based sources and the release predicate is checked on the real objects.",
+        "text": "Lean theorems C04_<tool> for filter, filterfalse, enumerate, takewhile, dropwhile, starmap, accumulate, batched, islice, pairwise, zip, zip(strict), map, zip_longest, compress, merge and the aggregations all, any, sum, min/max, reduce, list, tuple, nlargest/nsmallest: in EVERY world (every input, every fault position in sources/callables, consumer exhausting / closing after any number of items / throwing after any number of items) every source handed to the tool ends Released (async generator: closed, exhausted or finished by its own failure; class-based iterator with aclose: aclose() called or StopAsyncIteration delivered), provided the model did not run out of fuel. chain, cycle and sorted (the scope is not the outermost construct), set/dict (outside the value model), tee and groupby handles are not proved; they are covered by correspondence + oracle (tee by C09). On every run the real tools are driven over all tools x parameter grid x item sequences x {exhaust, every close cut, every throw cut} x every single fault position with async-generator and class-based sources and the release predicate is checked on the real objects.",
         "note": "Hypothesis H-close: a user aclose() neither raises nor suspends. The fuel proviso (result is not outOfFuel) is a model artefact; non-occurrence for fuel > total script length is validated by the correspondence, not proved. Parameter-validation errors (batched n<1) are outside the property's wording. Known finding D19 (open): chain() raising while later iterables were never started leaves them unreleased until chain.aclose(); the check verifies they are released after the owner's aclose().",
     },
     "C06": {
         "technique": "Lean 4 proof (Faithful: semantic predicate closed under the model's combinators, by induction on fuel/lists, for every world) + model/implementation correspondence + direct oracle on exception identity",
-        "text": "Faithful m: in every world the visible events m adds either contain no fault and m does not end with a user exception, or they END with exactly one fault event (source failing, callable failing, consumer throwing) carrying e, and m raises that very e. Corollaries C06_surfaces_at_once and C06_never_swallowed; C06_<tool> proves Faithful for the models of filter, filterfalse, enumerate, takewhile, dropwhile, starmap, accumulate, batched, chain's iterator, compress, cycle, islice, pairwise, zip, zip(strict), map, zip_longest, iter(callable, sentinel), all, any. 'Same items before the failure as the stdlib' is the C05 twin theorem (proved for 15 of these). Not yet modelled: merge, min/max, sum, sorted, list/tuple/set/dict, reduce, nlargest/nsmallest, groupby, tee. On every run every single fault position is injected into the real tools (sync and async sources/callables) and the oracle checks items before the fault against the real stdlib, identity (`is`) of the exception reaching the consumer, and that nothing is used after the fault.",
+        "text": "Faithful m: in every world the visible events m adds either contain no fault and m does not end with a user exception, or they END with exactly one fault event (source failing, callable failing, consumer throwing) carrying e, and m raises that very e. Corollaries C06_surfaces_at_once and C06_never_swallowed; C06_<tool> proves Faithful for the models of filter, filterfalse, enumerate, takewhile, dropwhile, starmap, accumulate, batched, chain's iterator, compress, cycle, islice, pairwise, zip, zip(strict), map, zip_longest, merge, iter(callable, sentinel), all, any, sum, min/max, reduce, list, tuple, sorted, nlargest/nsmallest. 'Same items before the failure as the stdlib' is the C05 twin theorem (proved for 17 of these). Not modelled: set/dict, groupby, tee. On every run every single fault position is injected into the real tools (sync and async sources/callables) and the oracle checks items before the fault against the real stdlib, identity (`is`) of the exception reaching the consumer, and that nothing is used after the fault.",
         "note": "Injected exceptions are ordinary Exception subclasses. The model's sources/callables have one primitive for sync and async flavours; flavour-independence of the real code is checked by the correspondence (flavours rotated), see C03.",
     },
     "C05": {
         "technique": "Lean 4 proof (twin theorems: asyncstdlib model vs CPython-algorithm model equal on the whole visible event log for every world) + model/implementation and spec/stdlib correspondence",
-        "text": "For filter, filterfalse, enumerate, takewhile, starmap, accumulate, batched, pairwise, zip, zip(strict), map, zip_longest, iter(callable, sentinel), all, any: Lean theorems C05_<tool> state that in EVERY world (every input script incl. faults, every number of consumer steps, every consumer ending) the model of asyncstdlib's code and the model of the CPython algorithm produce the same outcome and the same interleaved log of pulls, end-of-source detections, callable invocations with arguments/results and yields. dropwhile, islice, cycle, chain, compress are modelled and correspondence-checked but their twin theorems are not proved yet (lock-step inductions); merge is not modelled yet. Both models are tied on every run: asyncstdlib vs Impl model and real itertools/builtins vs Std model, event for event, over all tools x parameter grid x all item sequences (L<=3/4) x every consumer cut point, plus random cases.",
+        "text": "For filter, filterfalse, enumerate, takewhile, starmap, accumulate, batched, pairwise, cycle, zip, zip(strict), map, zip_longest, merge, iter(callable, sentinel), all, any: Lean theorems C05_<tool> state that in EVERY world (every input script incl. faults, every number of consumer steps, every consumer ending) the model of asyncstdlib's code and the model of the CPython algorithm produce the same outcome and the same interleaved log of pulls, end-of-source detections, callable invocations with arguments/results and yields. dropwhile, islice, chain, compress are modelled and correspondence-checked but their twin theorems are not proved yet (lock-step inductions); tee children are C09's machine. Both models are tied on every run: asyncstdlib vs Impl model and real itertools/builtins vs Std model, event for event, over all tools x parameter grid x all item sequences (L<=3/4) x every consumer cut point, plus random cases.",
         "note": "Trusted: Lean kernel; axioms propext/Quot.sound; the Std twins are hand-written from CPython 3.12 C sources and validated only by sampling against the real stdlib; the reference for batched is the 3.13 algorithm (3.12.1 polls the exhausted iterator once more after a short final batch). Pulls of real list arguments are unobservable and excluded. Tools without a proved twin are covered by correspondence + direct oracle only.",
     },
     "C14": {
